@@ -180,3 +180,31 @@ Definition reload_ok (cfg : config) (nd : nat) (old : sstate) (post : N -> dom -
              if in_some_group cfg n then implb o p && implb (p && negb o) (floor_justified cfg old n d) else p)
            all_doms) (map N.of_nat (seq 0 nd))
   && floor_ok (s_adopt cfg old post) cfg.
+
+(* ---- a probe is up to two attempts; teardown may cancel the node's context at any point ---------------- *)
+Inductive attempt := AOk | AErr | ASkip.          (* what an attempt yields when it runs to completion: success,
+                                                     a genuine error, "not applicable" (no address of that family) *)
+Inductive cancel_at := CNone | CBefore1 | CBetween | CDuring2 | CAfter.   (* CBefore1: before or during attempt 1 *)
+Inductive verdict := VSuccess | VFailure | VIgnore | VSkip.
+(* the property: success when an attempt succeeded; a failure only when both attempts genuinely failed; whenever the
+   context is cancelled before a second attempt completed the outcome is a cancellation and never counts *)
+Definition spec_probe_verdict (a1 a2 : attempt) (c : cancel_at) : verdict :=
+  match c with
+  | CBefore1 => VIgnore
+  | _ => match a1 with
+         | AOk => VSuccess
+         | ASkip => VSkip
+         | AErr => match c with
+                   | CBetween | CDuring2 => VIgnore
+                   | _ => match a2 with AOk => VSuccess | AErr => VFailure | ASkip => VSkip end
+                   end
+         end
+  end.
+Definition verdict_event (v : verdict) (n : N) (d : dom) (l : latmap) : ev :=
+  match v with
+  | VSuccess => EProbeOk n d l
+  | VFailure => EFail n d KCheck false l
+  | VIgnore => EFail n d KCheck true l
+  | VSkip => EProbeSkip n d
+  end.
+Definition verdict_is_ignore (v : verdict) : bool := match v with VIgnore => true | _ => false end.
